@@ -115,13 +115,14 @@ func splitRespectingQuotes(text string, delimiter byte) []string {
 	return parts
 }
 
-var (
-	backslashEscape = regexp.MustCompile(`\\(.)`)
-	unescapedComma  = regexp.MustCompile(`(?:\\.|[^,])+`)
-)
+var unescapedComma = regexp.MustCompile(`(?:\\.|[^,])+`)
 
+// unescapeQuoted undoes the one escape the header grammar has inside a quoted
+// value: \" for a double quote. Every other backslash belongs to the value
+// itself — the RFC 4514 escapes of a Subject (\, \+ \XX) — and must reach
+// extractCN, which splits on unescaped commas only.
 func unescapeQuoted(text string) string {
-	return backslashEscape.ReplaceAllString(text, "$1")
+	return strings.ReplaceAll(text, `\"`, `"`)
 }
 
 // extractCN extracts the CN value from an RFC 4514 or similar DN string.
